@@ -68,9 +68,11 @@ theorem mis2_diff (o : Op2)
 
 /-- Combining two values of the same type is a misuse only for point + point. -/
 theorem mis2_self (o : Op2)
-    (ho : o = .sub ∨ o = .mSub ∨ o = .subAssign ∨ o = .dot ∨ o = .cross ∨ o = .distance ∨ o = .vproj ∨ o = .min)
+    (ho : o = .sub ∨ o = .mSub ∨ o = .subAssign ∨ o = .dot ∨ o = .cross ∨ o = .distance ∨ o = .vproj ∨ o = .min ∨
+      o = .sproj ∨ o = .distanceSqr ∨ o = .rem ∨ o = .orientY ∨ o = .orientZ)
     (x : Ty) : mis2 o x x = none := by
-  rcases ho with rfl | rfl | rfl | rfl | rfl | rfl | rfl | rfl <;> simp [mis2, tagClash_self, unitClash_self]
+  rcases ho with rfl | rfl | rfl | rfl | rfl | rfl | rfl | rfl | rfl | rfl | rfl | rfl | rfl <;>
+    simp [mis2, tagClash_self, unitClash_self]
 
 theorem mis2_add_self (o : Op2) (ho : o = .add ∨ o = .mAdd ∨ o = .addAssign) (x : Ty) (hx : x.isPt = false) :
     mis2 o x x = none := by
